@@ -17,6 +17,7 @@ import Liftbridge.Driver.FailoverDrv
 import Liftbridge.Driver.MetadataDrv
 import Liftbridge.Driver.RecoverDrv
 import Liftbridge.Driver.ProtoDrv
+import Liftbridge.Driver.CodecDrv
 
 namespace Liftbridge.Driver
 open Liftbridge
@@ -66,6 +67,7 @@ def step (st : St) (line : String) : St × String :=
   | "c19" :: rest => (st, c19 rest)
   | "c15" :: rest => (st, c15Step rest)
   | "c17" :: rest => (st, c17 rest)
+  | "codec" :: rest => (st, codecStep rest)
   | "proto" :: rest => let (p, out) := protoStep st.proto rest; ({ st with proto := p }, out)
   | "c05" :: rest => let (r, out) := recStep st.recov rest; ({ st with recov := r }, out)
   | "c06" :: rest => let (m, out) := metaStep st.metadata rest; ({ st with metadata := m }, out)
